@@ -1662,4 +1662,374 @@ theorem inv_deleteBatch (s : State) (b : Nat) (h : Inv s) : Inv (deleteBatch s b
     · exact inv_quiet (quiet_markBatchDeleted s b) h
     · exact inv_quiet (quiet_markBatchDeleted _ b) (inv_cancelApply h (by simpa using h2))
 
+
+/-! ## procedure `commit_batch_update` -/
+
+/-- `UPDATE batch_updates SET committed = 1 WHERE batch_id = b AND update_id = upd` -/
+def flipU (b upd : Nat) (x : Update) : Update := if x.batch = b ∧ x.id = upd then { x with committed := true } else x
+
+theorem updCommitted_flip {s s1 : State} {b upd : Nat} (h : s1.updates = s.updates.map (flipU b upd)) {u : Update}
+    (hfu : findUpdate s b upd = some u) (b' u' : Nat) :
+    updCommitted s1 b' u' = (updCommitted s b' u' || decide (b' = b ∧ u' = upd)) := by
+  unfold updCommitted findUpdate at *
+  rw [h, List.find?_map]
+  have : ((fun x : Update => decide (x.batch = b' ∧ x.id = u')) ∘ flipU b upd) =
+      (fun x : Update => decide (x.batch = b' ∧ x.id = u')) := by
+    funext x; unfold flipU; simp only [Function.comp]; split_ifs <;> rfl
+  rw [this]
+  cases hf : List.find? (fun x : Update => decide (x.batch = b' ∧ x.id = u')) s.updates with
+  | none =>
+    by_cases hb : b' = b ∧ u' = upd
+    · obtain ⟨rfl, rfl⟩ := hb; rw [hf] at hfu; cases hfu
+    · simp [hb]
+  | some x =>
+    have hx := List.find?_some hf
+    simp only [decide_eq_true_eq] at hx
+    simp only [Option.map_some, flipU, hx.1, hx.2]
+    by_cases hb : b' = b ∧ u' = upd <;> simp [hb]
+
+/-- the staging row from which a user counter is fed at commit time -/
+def srcS (b upd : Nat) : CKey → Option (Nat × CKey)
+  | .uReady usr ic => some (usr, .sReady b upd 0 ic)
+  | .uReadyCores usr ic => some (usr, .sReadyCores b upd 0 ic)
+  | _ => none
+
+/-- what `commit_batch_update` must add to counter `k` -/
+def adj (s : State) (b upd : Nat) (k : CKey) : Int :=
+  match srcS b upd k with
+  | some (usr, sk) => if userOf s b = usr then get s.ctr sk else 0
+  | none => 0
+
+def extraW (s : State) (b upd : Nat) (k : CKey) (j : Job) : Int :=
+  match srcS b upd k with
+  | some (usr, sk) => if userOf s b = usr then w s sk j else 0
+  | none => 0
+
+/-- the state after the `UPDATE batch_updates` and the `INSERT INTO user_inst_coll_resources` of `commit_batch_update` -/
+def commitCore (s : State) (b upd : Nat) (adjl : List (CKey × Int)) : State :=
+  { s with updates := s.updates.map (flipU b upd), ctr := addMany adjl s.ctr }
+
+theorem w_commit {s : State} (hs : Struct s) {b upd : Nat} {u : Update} (hfu : findUpdate s b upd = some u)
+    (hunc : u.committed = false) (adjl : List (CKey × Int))
+    (H2 : ∀ j ∈ s.jobs, j.batch = b → j.update = upd → jobCancelled s j = false)
+    (k : CKey) (j : Job) (hj : j ∈ s.jobs) :
+    w (commitCore s b upd adjl) k j = w s k j + extraW s b upd k j := by
+  have hc1 := updCommitted_flip (s1 := commitCore s b upd adjl) (s := s) rfl hfu
+  have hunc' : updCommitted s b upd = false := by unfold updCommitted; rw [hfu]; exact hunc
+  have hgc : gcOf (commitCore s b upd adjl) j = gcOf s j := rfl
+  have hsg : ∀ b' u' g ic, scopeG (commitCore s b upd adjl) b' u' g ic j = scopeG s b' u' g ic j := fun _ _ _ _ => rfl
+  have hsu : ∀ usr ic, scopeU (commitCore s b upd adjl) usr ic j =
+      (decide (userOf s j.batch = usr) && decide (j.ic = ic) &&
+        (updCommitted s j.batch j.update || decide (j.batch = b ∧ j.update = upd))) := by
+    intro usr ic; unfold scopeU; rw [hc1]; rfl
+  by_cases hju : j.batch = b ∧ j.update = upd
+  · obtain ⟨hb, hu⟩ := hju
+    have f0 : updCommitted s j.batch j.update = false := by rw [hb, hu]; exact hunc'
+    obtain ⟨f1, f2⟩ := hs.uncommitted j hj f0
+    have f3 : cancB s j = false := H2 j hj hb hu
+    have f4 : liveB s j = true := by unfold liveB; unfold cancB at f3; rw [f3]; rfl
+    have f5 : 0 ∈ ancestorsOf s b j.group := by
+      have := hs.jobGroup j hj
+      rw [hb] at this
+      exact hs.ancRoot b j.group (fun e => by rw [e] at this; simp at this)
+    have hrun : ∀ w', ind j.state .Running w' = 0 := by
+      intro w'; rcases f2 with h | h <;> simp [ind, h, b2i]
+    have hcre : ∀ w', ind j.state .Creating w' = 0 := by
+      intro w'; rcases f2 with h | h <;> simp [ind, h, b2i]
+    have hs0 : ∀ ic, scopeG s b upd 0 ic j = decide (j.ic = ic) := by
+      intro ic; simp [scopeG, hb, hu, f5]
+    have hl1 : liveB (commitCore s b upd adjl) j = true := f4
+    have hc1' : cancB (commitCore s b upd adjl) j = false := f3
+    have hb1 : cblB (commitCore s b upd adjl) j = cblB s j := rfl
+    have hsu0 : ∀ usr ic, scopeU s usr ic j = false := by intro usr ic; simp [scopeU, f0]
+    have hsu1 : ∀ usr ic, scopeU (commitCore s b upd adjl) usr ic j = (decide (userOf s b = usr) && decide (j.ic = ic)) := by
+      intro usr ic; rw [hsu, hb, hu, hunc']; simp
+    cases k <;>
+      simp only [w, uw, gw, hsu1, hsu0, hsg, hl1, hc1', hb1, f3, f4, extraW, srcS,
+        Bool.false_eq_true, if_false, hs0, Int.zero_add, Int.add_zero, hrun, hcre, Int.zero_mul, ite_self]
+    all_goals (split_ifs <;> simp_all [ind, b2i])
+  · have hsu1 : ∀ usr ic, scopeU (commitCore s b upd adjl) usr ic j = scopeU s usr ic j := by
+      intro usr ic; rw [hsu]; simp [scopeU, hju]
+    have hsn : ∀ g ic, scopeG s b upd g ic j = false := by
+      intro g ic
+      unfold scopeG
+      by_cases h1 : j.batch = b
+      · have : ¬ j.update = upd := fun h2 => hju ⟨h1, h2⟩
+        simp [this]
+      · simp [h1]
+    have hl1 : liveB (commitCore s b upd adjl) j = liveB s j := rfl
+    have hc1' : cancB (commitCore s b upd adjl) j = cancB s j := rfl
+    have hb1 : cblB (commitCore s b upd adjl) j = cblB s j := rfl
+    cases k <;>
+      simp only [w, uw, gw, hsu1, hsg, hl1, hc1', hb1, extraW, srcS, hsn, Bool.false_eq_true, if_false, ite_self,
+        Int.add_zero]
+
+
+theorem live_srcS {s : State} {b upd : Nat} {k : CKey} {usr : Nat} {sk : CKey} (h : srcS b upd k = some (usr, sk))
+    (hunc : updCommitted s b upd = false) : Live s sk := by
+  cases k <;> simp only [srcS, Option.some.injEq, Prod.mk.injEq, reduceCtorEq] at h
+  all_goals obtain ⟨rfl, rfl⟩ := h
+  all_goals exact hunc
+
+theorem sum_extraW {s : State} (h : CountersInv s) {b upd : Nat} (hunc : updCommitted s b upd = false) (k : CKey) :
+    sumBy (extraW s b upd k) s.jobs = adj s b upd k := by
+  unfold adj
+  cases hsrc : srcS b upd k with
+  | none =>
+    simp only
+    apply sumBy_zero; intro j _; simp [extraW, hsrc]
+  | some q =>
+    obtain ⟨usr, sk⟩ := q
+    simp only
+    by_cases hu : userOf s b = usr
+    · rw [if_pos hu, h sk (live_srcS hsrc hunc)]
+      apply sumBy_congr; intro j _; simp [extraW, hsrc, hu]
+    · rw [if_neg hu]
+      apply sumBy_zero; intro j _; simp [extraW, hsrc, hu]
+
+theorem inv_commitCore {s : State} (h : Inv s) {b upd : Nat} {u : Update} (hfu : findUpdate s b upd = some u)
+    (hunc : u.committed = false) (adjl : List (CKey × Int))
+    (hadj : ∀ k, get adjl k = adj s b upd k)
+    (H2 : ∀ j ∈ s.jobs, j.batch = b → j.update = upd → jobCancelled s j = false) :
+    Inv (commitCore s b upd adjl) := by
+  have hc1 := updCommitted_flip (s1 := commitCore s b upd adjl) (s := s) rfl hfu
+  have hunc' : updCommitted s b upd = false := by unfold updCommitted; rw [hfu]; exact hunc
+  have hmono : ∀ b' u', updCommitted (commitCore s b upd adjl) b' u' = false → updCommitted s b' u' = false := by
+    intro b' u' hf; rw [hc1, Bool.or_eq_false_iff] at hf; exact hf.1
+  refine ⟨⟨h.1.ancNodup, h.1.ancSelf, h.1.ancTrans, h.1.ancLinear, h.1.ancRoot, h.1.jobGroup, h.1.jobBatch, ?_⟩, ?_⟩
+  · intro j hj hf; exact h.1.uncommitted j hj (hmono _ _ hf)
+  · intro k hk
+    have hk' : Live s k := by
+      cases k <;> first | exact hk | exact hmono _ _ hk
+    show get (addMany adjl s.ctr) k = sumBy (w (commitCore s b upd adjl) k) s.jobs
+    rw [get_addMany, hadj, h.2 k hk', sumBy_congr _ _ s.jobs (fun j hj => w_commit h.1 hfu hunc adjl H2 k j hj),
+      sumBy_add, sum_extraW h.2 hunc', Int.add_comm]
+
+
+theorem staging_nonneg {s : State} (h : CountersInv s) {b upd : Nat} (hunc : updCommitted s b upd = false) (ic : Nat) :
+    0 ≤ get s.ctr (.sJobs b upd 0 ic) := by
+  rw [h (.sJobs b upd 0 ic) hunc]
+  apply sumBy_nonneg; intro j _; simp only [w, gw]; split_ifs <;> omega
+
+/-- no staged job for an inst_coll: no staged ready job either -/
+theorem staging_zero {s : State} (h : CountersInv s) {b upd : Nat} (hunc : updCommitted s b upd = false) (ic : Nat)
+    (h0 : get s.ctr (.sJobs b upd 0 ic) = 0) :
+    get s.ctr (.sReady b upd 0 ic) = 0 ∧ get s.ctr (.sReadyCores b upd 0 ic) = 0 := by
+  rw [h (.sJobs b upd 0 ic) hunc] at h0
+  have hz := sumBy_eq_zero_term _ _ (fun j _ => by simp only [w, gw]; split_ifs <;> omega) h0
+  have hsc : ∀ j ∈ s.jobs, scopeG s b upd 0 ic j = false := by
+    intro j hj
+    have := hz j hj
+    simp only [w, gw] at this
+    cases hsg : scopeG s b upd 0 ic j with
+    | false => rfl
+    | true => rw [hsg] at this; simp at this
+  rw [h (.sReady b upd 0 ic) hunc, h (.sReadyCores b upd 0 ic) hunc]
+  constructor <;> (apply sumBy_zero; intro j hj; simp [w, gw, hsc j hj])
+
+/-- the `INSERT INTO user_inst_coll_resources … SELECT … FROM job_groups_inst_coll_staging` of `commit_batch_update` -/
+theorem get_commitDeltas {s : State} (h : CountersInv s) {b upd : Nat} (hunc : updCommitted s b upd = false)
+    (ics : List Nat) (hnd : ics.Nodup) (habs : ∀ ic, ic ∉ ics → ∀ e ∈ s.ctr, e.1 ≠ .sJobs b upd 0 ic) (k : CKey) :
+    get (ics.flatMap fun ic =>
+      [(CKey.uReady (userOf s b) ic, get s.ctr (.sReady b upd 0 ic)),
+       (CKey.uReadyCores (userOf s b) ic, get s.ctr (.sReadyCores b upd 0 ic))]) k = adj s b upd k := by
+  have hz : ∀ ic, ic ∉ ics → get s.ctr (.sReady b upd 0 ic) = 0 ∧ get s.ctr (.sReadyCores b upd 0 ic) = 0 :=
+    fun ic hic => staging_zero h hunc ic (get_eq_zero_of_absent _ _ (habs ic hic))
+  rw [get_flatMap]
+  cases k <;>
+    simp only [get_cons, get_nil, reduceCtorEq, if_false, Int.zero_add, Int.add_zero, sum_map_zero, adj, srcS,
+      CKey.uReady.injEq, CKey.uReadyCores.injEq]
+  · rename_i usr ic0
+    show sumBy (fun ic => if userOf s b = usr ∧ ic = ic0 then get s.ctr (.sReady b upd 0 ic) else 0) ics = _
+    rw [sumBy_congr _ (fun ic => if ic = ic0 then (if userOf s b = usr then get s.ctr (.sReady b upd 0 ic0) else 0) else 0)]
+    · rw [sumBy_ite_eq_nodup _ hnd]
+      split_ifs with h1 h2 <;> first | rfl | (rw [(hz ic0 h1).1])
+    · intro ic _; by_cases h1 : ic = ic0 <;> by_cases h2 : userOf s b = usr <;> simp [h1, h2]
+  · rename_i usr ic0
+    show sumBy (fun ic => if userOf s b = usr ∧ ic = ic0 then get s.ctr (.sReadyCores b upd 0 ic) else 0) ics = _
+    rw [sumBy_congr _ (fun ic => if ic = ic0 then (if userOf s b = usr then get s.ctr (.sReadyCores b upd 0 ic0) else 0) else 0)]
+    · rw [sumBy_ite_eq_nodup _ hnd]
+      split_ifs with h1 h2 <;> first | rfl | (rw [(hz ic0 h1).2])
+    · intro ic _; by_cases h1 : ic = ic0 <;> by_cases h2 : userOf s b = usr <;> simp [h1, h2]
+
+/-- an update with no staged job adds nothing to the user counters -/
+theorem adj_zero {s : State} (h : CountersInv s) {b upd : Nat} (hunc : updCommitted s b upd = false)
+    (ics : List Nat) (habs : ∀ ic, ic ∉ ics → ∀ e ∈ s.ctr, e.1 ≠ .sJobs b upd 0 ic)
+    (h0 : (ics.map fun ic => get s.ctr (.sJobs b upd 0 ic)).sum = 0) (k : CKey) : adj s b upd k = 0 := by
+  have hall : ∀ ic, get s.ctr (.sJobs b upd 0 ic) = 0 := by
+    intro ic
+    by_cases hic : ic ∈ ics
+    · exact sumBy_eq_zero_term (fun ic => get s.ctr (.sJobs b upd 0 ic)) ics (fun x _ => staging_nonneg h hunc x) h0 ic hic
+    · exact get_eq_zero_of_absent _ _ (habs ic hic)
+  unfold adj
+  cases k <;> simp only [srcS]
+  · rw [(staging_zero h hunc _ (hall _)).1]; simp
+  · rw [(staging_zero h hunc _ (hall _)).2]; simp
+
+
+theorem inv_commitUpdate (s : State) (b upd : Nat)
+    (H2 : ∀ j ∈ s.jobs, j.batch = b → j.update = upd → jobCancelled s j = false)
+    (Hr : ∀ u, findUpdate s b upd = some u → ∀ j ∈ s.jobs, j.batch = b → u.startJob ≤ j.id → j.id < u.startJob + u.nJobs →
+      j.update = upd ∨ updCommitted s b j.update = true)
+    (h : Inv s) : Inv (commitUpdate s b upd).1 := by
+  unfold commitUpdate
+  split
+  · exact h
+  · rename_i u hfu
+    dsimp only
+    generalize hics : List.eraseDups (α := Nat) (List.filterMap _ s.ctr) = ics
+    have hnd : ics.Nodup := by rw [← hics]; exact eraseDups_nodup _
+    have habs : ∀ ic, ic ∉ ics → ∀ e ∈ s.ctr, e.1 ≠ .sJobs b upd 0 ic := by
+      intro ic hic e he hek
+      apply hic
+      rw [← hics, List.mem_eraseDups, List.mem_filterMap]
+      exact ⟨e, he, by rw [hek]; simp⟩
+    clear hics
+    split_ifs with h1 h2 h3 h4
+    · exact h
+    · exact h
+    · -- an update without jobs: only the flag changes
+      have hunc : u.committed = false := by simpa using h1
+      have hunc' : updCommitted s b upd = false := by unfold updCommitted; rw [hfu]; exact hunc
+      have h0 : (ics.map fun ic => get s.ctr (.sJobs b upd 0 ic)).sum = 0 := by
+        have : (ics.map fun ic => get s.ctr (.sJobs b upd 0 ic)).sum = (u.nJobs : Int) := by
+          simpa using h2
+        rw [this, h3]; rfl
+      exact inv_commitCore h hfu hunc [] (fun k => by rw [adj_zero h.2 hunc' ics habs h0 k]; rfl) H2
+    · have hunc : u.committed = false := by simpa using h1
+      have hunc' : updCommitted s b upd = false := by unfold updCommitted; rw [hfu]; exact hunc
+      refine inv_quiet (s := commitCore s b upd (ics.flatMap fun ic =>
+        [(CKey.uReady (userOf s b) ic, get s.ctr (.sReady b upd 0 ic)),
+         (CKey.uReadyCores (userOf s b) ic, get s.ctr (.sReadyCores b upd 0 ic))])) ?_
+        (inv_commitCore h hfu hunc _ (get_commitDeltas h.2 hunc' ics hnd habs) H2)
+      refine ⟨SameEnv.of_maps ?_ rfl rfl ?_ rfl rfl, rfl, fun _ _ => rfl⟩
+      · intro x; split_ifs <;> exact ⟨rfl, rfl⟩
+      · exact groupFrame_setStateJobs _ _ _
+    · have hunc : u.committed = false := by simpa using h1
+      have hunc' : updCommitted s b upd = false := by unfold updCommitted; rw [hfu]; exact hunc
+      refine inv_updateJobs _ _ _ ?_ ?_ (inv_quiet (s := commitCore s b upd (ics.flatMap fun ic =>
+        [(CKey.uReady (userOf s b) ic, get s.ctr (.sReady b upd 0 ic)),
+         (CKey.uReadyCores (userOf s b) ic, get s.ctr (.sReadyCores b upd 0 ic))])) ?_
+        (inv_commitCore h hfu hunc _ (get_commitDeltas h.2 hunc' ics hnd habs) H2))
+      · intro x
+        refine ⟨rfl, rfl, rfl, rfl, rfl, rfl, rfl, ?_⟩
+        intro hx; dsimp only; split_ifs <;> simp_all
+      · intro x hx hp
+        simp only [Bool.decide_and, Bool.and_eq_true, decide_eq_true_eq] at hp
+        rw [updCommitted_flip (b := b) (upd := upd) rfl hfu]
+        rcases Hr u hfu x hx hp.1 hp.2.1 hp.2.2 with h5 | h5
+        · simp [hp.1, h5]
+        · rw [hp.1, h5]; rfl
+      · refine ⟨SameEnv.of_maps ?_ rfl rfl ?_ rfl rfl, rfl, fun _ _ => rfl⟩
+        · intro x; split_ifs <;> exact ⟨rfl, rfl⟩
+        · exact groupFrame_setStateJobs _ _ _
+
+
+/-! ## every transaction -/
+
+/-- (H1) every child (`job_parents`) of job `j` belongs to a committed update -/
+def ChildrenCommitted (s : State) (b j : Nat) : Prop :=
+  ∀ x ∈ s.jobs, isChildOf s b j x = true → updCommitted s x.batch x.update = true
+
+/-- (H2) no job of the update is cancelled (by its own mark or through a cancelled group) -/
+def NoneCancelled (s : State) (b upd : Nat) : Prop :=
+  ∀ j ∈ s.jobs, j.batch = b → j.update = upd → jobCancelled s j = false
+
+/-- (H2') the rows in the job-id range reserved for the update belong to it (or to a committed update) -/
+def RangeOwned (s : State) (b upd : Nat) : Prop :=
+  match findUpdate s b upd with
+  | some u => ∀ j ∈ s.jobs, j.batch = b → u.startJob ≤ j.id → j.id < u.startJob + u.nJobs →
+      j.update = upd ∨ updCommitted s b j.update = true
+  | none => True
+
+/-- (H4) every group row present after the transaction has the root group among its ancestors, i.e. the parent named
+by each group spec existed when the group was created -/
+def GroupsRooted (s : State) : Prop := ∀ g ∈ s.groups, 0 ∈ g.ancestors
+
+/-- the hypotheses on (pre-state, transaction) under which the counters stay exact -/
+def OpOK (s : State) : Op → Prop
+  | .schedule b j _ _ => TargetCommitted s b j
+  | .creating b j _ _ _ _ => TargetCommitted s b j
+  | .started b j _ _ _ _ => TargetCommitted s b j
+  | .unschedule b j _ _ _ _ _ => TargetCommitted s b j
+  | .complete b j _ _ _ _ _ _ _ => TargetCommitted s b j ∧ ChildrenCommitted s b j
+  | .commitUpdate b upd => NoneCancelled s b upd ∧ RangeOwned s b upd
+  | .insertGroups b upd usr specs => GroupsRooted (insertGroups s b upd usr specs).1
+  | _ => True
+
+instance (s : State) (b j : Nat) : Decidable (ChildrenCommitted s b j) := by unfold ChildrenCommitted; infer_instance
+instance (s : State) (b upd : Nat) : Decidable (NoneCancelled s b upd) := by unfold NoneCancelled; infer_instance
+instance (s : State) (b upd : Nat) : Decidable (RangeOwned s b upd) := by
+  unfold RangeOwned; cases findUpdate s b upd <;> infer_instance
+instance (s : State) : Decidable (GroupsRooted s) := by unfold GroupsRooted; infer_instance
+instance (s : State) (op : Op) : Decidable (OpOK s op) := by cases op <;> unfold OpOK <;> infer_instance
+
+theorem struct_init : Struct init := by
+  have ha : ∀ b d, ancestorsOf init b d = [] := fun _ _ => rfl
+  refine ⟨?_, ?_, ?_, ?_, ?_, ?_, ?_, ?_⟩
+  · intro b d; rw [ha]; simp
+  · intro b d a h; rw [ha] at h; simp at h
+  · intro b d a h; rw [ha] at h; simp at h
+  · intro b d a g h; rw [ha] at h; simp at h
+  · intro b d h; exact absurd (ha b d) h
+  · intro j hj; simp [init] at hj
+  · intro j hj; simp [init] at hj
+  · intro j hj; simp [init] at hj
+
+theorem inv_init : Inv init := ⟨struct_init, fun _ _ => rfl⟩
+
+/-- `Struct ∧ CountersInv` is preserved by every transaction that satisfies `OpOK` -/
+theorem inv_step (s : State) (op : Op) (hok : OpOK s op) (hself : GroupsSelf s) (h : Inv s) : Inv (step s op).1 := by
+  cases op with
+  | createBatch u bp t => exact inv_createBatch s u bp t h
+  | createUpdate b t nj ng u => exact inv_quiet (quiet_createUpdate s b t nj ng u) h
+  | insertGroups b u usr specs => exact inv_insertGroups s b u usr specs hok h
+  | insertJobs b u usr specs => exact inv_insertJobs s b u usr specs hself h
+  | commitUpdate b u =>
+    refine inv_commitUpdate s b u hok.1 ?_ h
+    intro x hfu
+    have := hok.2
+    unfold RangeOwned at this
+    rw [hfu] at this
+    exact this
+  | cancelGroup b g => exact inv_cancelGroup s b g h
+  | deleteBatch b => exact inv_deleteBatch s b h
+  | newInstance n c p => exact inv_quiet (quiet_newInstance s n c p) h
+  | activate n => exact inv_quiet (quiet_activate s n) h
+  | deactivate n r ts d => exact inv_deactivate s n r ts d h
+  | markDeleted n => exact inv_quiet (quiet_markDeleted s n) h
+  | schedule b j a i => exact inv_schedule s b j a i hok h
+  | creating b j a i ts d => exact inv_startLike s b j a i ts d _ _ hok h
+  | started b j a i ts d => exact inv_startLike s b j a i ts d _ _ hok h
+  | complete b j a i st st' e r d => exact inv_complete s b j a i st st' e r d hok.1 hok.2 h
+  | unschedule b j a i e r d => exact inv_unschedule s b j a i e r d hok h
+  | addResources b j a res d => exact inv_quiet (quiet_addResources s b j a res d) h
+  | heartbeat atts ts d => exact inv_quiet (quiet_heartbeat s atts ts d) h
+  | cleanupStaging => exact inv_quiet (quiet_cleanupStaging s) h
+  | cleanupCancellable => exact inv_quiet (quiet_cleanupCancellable s) h
+  | compact => exact inv_quiet (quiet_compact s) h
+
+/-- the hypotheses hold at every step of a history started in `s` -/
+def HistOK : State → List Op → Prop
+  | _, [] => True
+  | s, op :: rest => OpOK s op ∧ HistOK (step s op).1 rest
+
+instance : ∀ (s : State) (ops : List Op), Decidable (HistOK s ops)
+  | _, [] => isTrue trivial
+  | s, op :: rest => by
+    unfold HistOK
+    have := instDecidableHistOK (step s op).1 rest
+    infer_instance
+
+theorem inv_hist (ops : List Op) : ∀ (s : State), HistOK s ops → GroupsSelf s → Inv s →
+    Inv (ops.foldl (fun s op => (step s op).1) s) := by
+  induction ops with
+  | nil => intro s _ _ h; exact h
+  | cons op rest ih =>
+    intro s hok hself h
+    exact ih (step s op).1 hok.2 (groupsSelf_of_shape (shape_step s op) hself) (inv_step s op hok.1 hself h)
+
+theorem inv_run (ops : List Op) (hok : HistOK init ops) : Inv (run ops) :=
+  inv_hist ops init hok groupsSelf_init inv_init
+
 end HailVerif.BatchDB
